@@ -396,6 +396,13 @@ func (s *Symbols) usedDecls(texts []string) []string {
 			scan(d)
 		}
 	}
+	if seen["fieldaddr"] && !seen["fieldaddr!axiom"] {
+		if _, ok := s.decl["fieldaddr!axiom"]; ok {
+			seen["fieldaddr!axiom"] = true
+			work = append(work, "fieldaddr!axiom", "fa_base", "fa_field")
+			seen["fa_base"], seen["fa_field"] = true, true
+		}
+	}
 	// emit in declaration order
 	idx := map[string]int{}
 	for i, n := range s.order {
